@@ -14,6 +14,7 @@ import (
 	"testing"
 	"time"
 
+	metav1 "k8s.io/apimachinery/pkg/apis/meta/v1"
 	"k8s.io/apimachinery/pkg/apis/meta/v1/unstructured"
 
 	"metacontroller/pkg/apis/metacontroller/v1alpha1"
@@ -542,6 +543,104 @@ func TestVerif_C19_Replay(t *testing.T) {
 					}
 				}
 				rep.Case("C19", id, calls >= 2, id, map[string]interface{}{"calls": calls, "ifNoneMatch": inm})
+			}
+		}
+	}
+}
+
+// The configured hook timeout ("a timeout ... is an error"): whatever spec.hooks.*.timeout says
+// (unset, sub-second, fractional, invalid) the request that reaches the hook carries a deadline of
+// exactly that duration after the call was made, and a hook that does not answer before the
+// deadline makes the call fail. Judged on the deadline the request carries, with two inequalities
+// that hold for every schedule (tBefore <= time the deadline was computed <= arrival):
+//   deadline - tBefore >= timeout   and   deadline - arrival <= timeout
+func TestVerif_C19_Timeout(t *testing.T) {
+	rep := sim.R()
+	var clock int64
+	type tc struct {
+		name string
+		set  *time.Duration
+		want time.Duration
+	}
+	d := func(v time.Duration) *time.Duration { return &v }
+	cases := []tc{
+		{"unset", nil, 10 * time.Second},
+		{"300ms", d(300 * time.Millisecond), 300 * time.Millisecond},
+		{"700ms", d(700 * time.Millisecond), 700 * time.Millisecond},
+		{"1s", d(time.Second), time.Second},
+		{"1500ms", d(1500 * time.Millisecond), 1500 * time.Millisecond},
+		{"2s", d(2 * time.Second), 2 * time.Second},
+		{"45s", d(45 * time.Second), 45 * time.Second},
+		{"zero", d(0), 10 * time.Second},
+		{"negative", d(-time.Second), 10 * time.Second},
+	}
+	tr := true
+	for _, c := range cases {
+		for _, etag := range []bool{false, true} {
+			for _, hang := range []bool{false, true} {
+				if hang && c.want > 2*time.Second {
+					continue
+				}
+				id := fmt.Sprintf("c19-timeout-%s-etag%v-hang%v", c.name, etag, hang)
+				if !sim.WantCase(id) {
+					continue
+				}
+				rep.Begin("C19", id)
+				viol := func(sig, detail string) {
+					rep.Violation("C19", id, sig, detail, map[string]interface{}{"timeout": c.name, "etag": etag, "hang": hang})
+				}
+				site := sim.NewHookSite(&clock, nil)
+				var sawDeadline, hadDeadline bool
+				var fromBefore, fromArrival time.Duration
+				var tBefore time.Time
+				site.Handle("sync", func(call *sim.HookCall) sim.HookResponse {
+					dl, ok := call.Ctx.Deadline()
+					sawDeadline, hadDeadline = true, ok
+					if ok {
+						fromBefore, fromArrival = dl.Sub(tBefore), dl.Sub(call.Arrived)
+					}
+					if hang && ok {
+						<-call.Ctx.Done()
+						return sim.HookResponse{Err: call.Ctx.Err()}
+					}
+					return sim.HookResponse{Status: 200, Body: []byte(bodyFor("x"))}
+				})
+				url := site.URL("sync")
+				wh := &v1alpha1.Webhook{URL: &url}
+				if c.set != nil {
+					wh.Timeout = &metav1.Duration{Duration: *c.set}
+				}
+				if etag {
+					wh.Etag = &v1alpha1.WebhookEtagConfig{Enabled: &tr}
+				}
+				ex, err := NewWebhookExecutor(wh, "ctl-"+id, common.CompositeController, common.SyncHook)
+				if err != nil || ex == nil {
+					rep.Violation("C20", id, "usable-webhook-rejected", fmt.Sprintf("webhook with timeout %s rejected: %v", c.name, err), nil)
+					rep.Case("C19", id, false, id, nil)
+					site.Close()
+					continue
+				}
+				var resp compositev1.CompositeHookResponse
+				tBefore = time.Now()
+				stack, p := sim.Guard(func() { err = ex.Call(request("p", "x"), &resp) })
+				switch {
+				case p:
+					viol("panic:"+sim.PanicSite(stack), stack)
+				case !sawDeadline:
+					rep.Inconclusive("C19", id, "the hook was not reached")
+				case !hadDeadline:
+					viol("hook-call-without-deadline", fmt.Sprintf("timeout %s: the request reached the hook without any deadline, a hook that never answers would never time out", c.name))
+				case fromBefore < c.want:
+					viol("hook-deadline-too-early", fmt.Sprintf("timeout %s: the request's deadline is %v after the moment before the call, less than the configured %v", c.name, fromBefore, c.want))
+				case fromArrival > c.want:
+					viol("hook-deadline-too-late", fmt.Sprintf("timeout %s: on arrival the request still had %v, more than the configured %v", c.name, fromArrival, c.want))
+				case hang && err == nil:
+					viol("timeout-accepted", "the hook did not answer before the deadline and the call reported success")
+				case !hang && err != nil:
+					viol("answer-rejected", fmt.Sprintf("a prompt 200 answer was rejected: %v", err))
+				}
+				site.Close()
+				rep.Case("C19", id, sawDeadline, id, map[string]interface{}{"timeout": c.name, "etag": etag, "hang": hang, "deadlineSeen": hadDeadline, "deadlineFromBefore": fromBefore.String(), "deadlineFromArrival": fromArrival.String()})
 			}
 		}
 	}
